@@ -139,7 +139,7 @@ theorem PPost.register (p : Producer) (stored : List UMsg) (R : Nat) (n : Nat) (
     split <;> exact ⟨hL.sess, hL.idx, hL.len, hL.pay, hL.unc, hL.pend, hL.stmsg⟩
   · unfold Producer.handleRegister
     split
-    · exact ⟨hD.cur, hD.cur, hD.cred⟩
+    · exact ⟨Nat.le_trans (Nat.min_le_left _ _) hD.dem, hD.cur, hD.cred⟩
     · exact hD
   · intro x hx
     unfold Producer.handleRegister at hx ⊢
